@@ -48,10 +48,13 @@ EXPECTED_PROBES = ["cx_with_index", "cx_without_index", "index_inherited_by_deri
                    "pickle_of_indexed_object", "page_size_1", "omitted_end", "reversed_ends",
                    "whole_page_of_inert_rows", "covered_rows_nonempty", "container_frame",
                    "container_series", "container_array", "strided_or_reversed_slice",
-                   "box_end_within_float32_step_of_coordinate"]
+                   "box_end_within_float32_step_of_coordinate",
+                   "same_boxes_indexed_twice_inert_rows_elsewhere",
+                   "geometry_column_replaced_in_place_after_cx"]
 
 PAGES = (1, 2, 3, 5, 8, 512)
 OPS = ("build", "build", "sindex", "slice", "slice_step", "take", "mask", "copy", "concat", "colsubset",
+       "dropna_build", "setcol",
        "pickle", "parquet", "cx", "cx", "cx", "cx")
 
 
@@ -112,11 +115,12 @@ class Bad(Exception):
 
 class Obj:
     """A live object + its model: element values, index labels, extra column, container."""
-    __slots__ = ("obj", "vals", "labels", "extra", "container", "indexed", "iname")
+    __slots__ = ("obj", "vals", "labels", "extra", "container", "indexed", "iname", "built")
 
     def __init__(self, obj, vals, labels, extra, container, indexed, iname):
         self.obj, self.vals, self.labels, self.extra = obj, vals, labels, extra
         self.container, self.indexed, self.iname = container, indexed, iname
+        self.built = None       # (p, page_size) of the last explicit build on this object
 
 
 _SUBTYPE = ["float64"]      # coordinate subtype of the running case (one run per process)
@@ -222,6 +226,7 @@ def _drive(case, root, fs, probes, sig, done):
                 if any(all(inert[j:j + st["page"]]) for j in range(0, max(0, n - st["page"] + 1))):
                     probes["whole_page_of_inert_rows"] = 1
             done.append(("build", st["p"], st["page"]))
+            o.built = (st["p"], st["page"])
             continue
         if op == "sindex":
             if o.container == "frame":
@@ -271,6 +276,55 @@ def _drive(case, root, fs, probes, sig, done):
             sel = [j for j in range(n) if m[j]]
             new = _guard("mask", lambda: o.obj[np.array(m, dtype=bool)], sig)
             done.append(("mask", m))
+        elif op == "dropna_build":
+            # the rows that have a box, in the same order (what dropna() / a slice cutting
+            # leading missing rows gives), indexed with the SAME p and page size as the
+            # source: two objects with the same defined boxes, their inert rows elsewhere
+            if not o.built:
+                kw = {"p": st["p"], "page_size": st["page"]}
+                _guard("build_sindex", lambda: o.obj.build_sindex(**kw), sig)
+                o.built = (st["p"], st["page"])
+            m = [not models.is_inert(kind, v) for v in o.vals]
+            if st["bits"] & 1 and n:
+                # keep the tail from the first defined row on instead (leading inert rows cut)
+                k0 = next((j for j in range(n) if m[j]), n)
+                m = [j >= k0 for j in range(n)]
+            sel = [j for j in range(n) if m[j]]
+            new = _guard("mask of defined rows", lambda: o.obj[np.array(m, dtype=bool)], sig)
+            nobj = Obj(new, [o.vals[j] for j in sel], [o.labels[j] for j in sel],
+                       [o.extra[j] for j in sel], o.container, False, o.iname)
+            _admit(pool, nobj, kind, probes, sig)
+            kw = {"p": o.built[0], "page_size": o.built[1]}
+            _guard("build_sindex (same configuration as the source)",
+                   lambda: nobj.obj.build_sindex(**kw), sig)
+            nobj.built = o.built
+            if len(sel) < n:
+                probes["same_boxes_indexed_twice_inert_rows_elsewhere"] = 1
+            done.append(("dropna_build", o.built, sel))
+            continue
+        elif op == "setcol":
+            # the geometry column of a frame replaced IN PLACE (same frame object, same column
+            # name) after the frame has already answered a cx query
+            if o.container != "frame" or n < 2:
+                continue
+            new = _guard("copy", lambda: o.obj.copy(), sig)
+            if st["bits"] & 1:
+                _guard("build_sindex", lambda: new.build_sindex(p=st["p"], page_size=st["page"]),
+                       sig)
+            _guard("cx before the column is replaced", lambda: new.cx[0:16, 0:16], sig)
+            k = 1 + (st["bits"] >> 1) % (n - 1)
+            perm = list(range(k, n)) + list(range(k))
+            vals2 = [o.vals[j] for j in perm]
+            arr2 = gen.build_array(kind, vals2, _SUBTYPE[0])
+
+            def assign():
+                new["geo"] = arr2
+            _guard("frame['geo'] = other array", assign, sig)
+            nobj = Obj(new, vals2, list(o.labels), list(o.extra), o.container, False, o.iname)
+            probes["geometry_column_replaced_in_place_after_cx"] = 1
+            done.append(("setcol", k))
+            _admit(pool, nobj, kind, probes, sig)
+            continue
         elif op == "copy":
             sel = list(range(n))
             new = _guard("copy", lambda: o.obj.copy(), sig)
